@@ -35,6 +35,9 @@ type c04Scenario struct {
 	// user handlers can be first in their list.
 	PreRegs int     `json:"pre_regs"`
 	Ops     []c04Op `json:"ops"`
+	// Solo: at the end, a name that has exactly ONE handler in its set (no sentinels on it), which
+	// mutates that same set from inside the handler: "" none, else fg/bg + ":" + selfremove/add
+	Solo string `json:"solo"`
 }
 
 type c04H struct {
@@ -221,6 +224,7 @@ func genC04(t *rapid.T) *c04Scenario {
 		}
 	}
 	sc.Ops = append(sc.Ops, c04Op{Op: "event", Name: "EVA"}, c04Op{Op: "event", Name: "evb"}, c04Op{Op: "event", Name: "Evc"}, c04Op{Op: "event", Name: "PING"})
+	sc.Solo = rapid.SampledFrom([]string{"", "fg:selfremove", "fg:add", "bg:selfremove", "bg:add"}).Draw(t, "solo")
 	return sc
 }
 
@@ -511,10 +515,87 @@ func runC04(sc *c04Scenario) *Violation {
 			}
 		}
 	}
+	if sc.Solo != "" {
+		if v := runC04Solo(r, sc.Solo); v != nil {
+			return v
+		}
+	}
 	r.mu.Lock()
 	defer r.mu.Unlock()
 	if len(r.panics) > 0 {
 		return violationf("C04", "a handler panicked during registration/removal from inside handlers: %v", r.panics)
+	}
+	return nil
+}
+
+// runC04Solo: the only handler registered under a name removes itself, or registers a second
+// handler under the same name, from inside its own invocation. The event must complete (no
+// dead-lock), and the following event must invoke exactly the handlers then registered.
+func runC04Solo(r *c04Run, solo string) *Violation {
+	bg := strings.HasPrefix(solo, "bg:")
+	script := solo[3:]
+	name := "EVSOLO"
+	var mu sync.Mutex
+	counts := map[string]int{}
+	var rem client.Remover
+	reg := func(key string, f func(c *client.Conn, l *client.Line)) client.Remover {
+		h := client.HandlerFunc(func(c *client.Conn, l *client.Line) {
+			mu.Lock()
+			counts[key]++
+			mu.Unlock()
+			if f != nil {
+				f(c, l)
+			}
+		})
+		if bg {
+			return r.tc.C.HandleBG(name, h)
+		}
+		return r.tc.C.HandleFunc(name, h)
+	}
+	armed := true
+	rem = reg("first", func(c *client.Conn, l *client.Line) {
+		mu.Lock()
+		a := armed
+		armed = false
+		mu.Unlock()
+		if !a {
+			return
+		}
+		if script == "selfremove" {
+			rem.Remove()
+		} else {
+			reg("second", nil)
+		}
+	})
+	fail := func(what string) *Violation {
+		_, dump := goircGoroutines()
+		return &Violation{Property: "C04", Msg: fmt.Sprintf("single handler under a name (%s): %s", solo, what), Detail: dump}
+	}
+	for round := 1; round <= 2; round++ {
+		r.tc.conn().SendLine(fmt.Sprintf(":s!u@h %s tgt :%d", name, round))
+		if !r.tc.syncIn(stallTimeout()) {
+			return fail(fmt.Sprintf("event %d never completed (dead-lock while the only handler of the name changed the handler set)", round))
+		}
+		want := map[string]int{"first": 1}
+		if round == 2 {
+			if script == "selfremove" {
+				want = map[string]int{"first": 1}
+			} else {
+				want = map[string]int{"first": 2, "second": 1}
+			}
+		}
+		ok := waitCond(stallTimeout(), func() bool {
+			mu.Lock()
+			defer mu.Unlock()
+			return counts["first"] >= want["first"] && counts["second"] >= want["second"] && dispatchFrames() == 0
+		})
+		mu.Lock()
+		got := fmt.Sprint(counts)
+		exact := counts["first"] == want["first"] && counts["second"] == want["second"]
+		mu.Unlock()
+		if !ok || !exact {
+			return fail(fmt.Sprintf("after event %d the handlers ran %s, want %v", round, got, want))
+		}
 	}
 	return nil
 }
@@ -541,6 +622,10 @@ func (sc *c04Scenario) classes() (cls []string, nontrivial bool) {
 				nontrivial = true
 			}
 		}
+	}
+	if sc.Solo != "" {
+		cls = append(cls, "solo="+sc.Solo)
+		nontrivial = true
 	}
 	return uniqStrings(cls), nontrivial
 }
